@@ -21,6 +21,7 @@ type Prop struct {
 	TrustedBase []string `json:"trusted_base"`
 	Assumptions []string `json:"assumptions"`
 	MinObligations int   `json:"min_obligations"`
+	TimeoutQuick   int    `json:"timeout_quick"`   // per-obligation solver timeout in seconds for the quick tier (default 20)
 	Profile        string `json:"profile"` // contracts declared `func F @profile` replace the default contract of F
 
 	Bounded     []string `json:"bounded"` // function keys whose obligations are bounded (never counted as proved)
